@@ -269,18 +269,7 @@ func TestVerifC23(t *testing.T) {
 	plans := vx.Pick(r,
 		[]plan{{"ooo+snap", "small", 2}, {"snap", "small", 2}},
 		[]plan{{"ooo+snap", "small", 3}, {"snap", "small", 3}, {"ooo+snap", "medium", 2}, {"ooo+snap", "small", 4}})
-	for _, p := range plans {
-		if r.Expired() {
-			r.NotExhaustive("deadline before plan " + p.cfg)
-			break
-		}
-		c := cfgs[p.cfg]
-		c.Alphabet = p.alpha
-		name := p.cfg + "@" + p.alpha
-		res := r.BFS(name, func() vx.Sys { return c23New(r, c, name) }, p.depth)
-		t.Logf("C23 %s depth %d: states=%d transitions=%d", name, p.depth, res.States, res.Transitions)
-	}
-	// search from non-initial states (deep scripted pre-states)
+	// FIRST (targeted, must not be cut off by the deadline): search from non-initial states (deep scripted pre-states)
 	for _, cn := range vx.Pick(r, []string{"ooo+snap"}, []string{"ooo+snap", "snap"}) {
 		if r.Expired() {
 			r.NotExhaustive("deadline before the non-initial-state search of " + cn)
@@ -291,6 +280,17 @@ func TestVerifC23(t *testing.T) {
 		name := cn + "@small+starts"
 		res := r.BFSFrom(name, func() vx.Sys { x := c23New(r, c, name); x.light = true; return x }, dbxStarts(c.W), vx.Pick(r, 1, 2))
 		t.Logf("C23 %s: states=%d transitions=%d", name, res.States, res.Transitions)
+	}
+	for _, p := range plans {
+		if r.Expired() {
+			r.NotExhaustive("deadline before plan " + p.cfg)
+			break
+		}
+		c := cfgs[p.cfg]
+		c.Alphabet = p.alpha
+		name := p.cfg + "@" + p.alpha
+		res := r.BFS(name, func() vx.Sys { return c23New(r, c, name) }, p.depth)
+		t.Logf("C23 %s depth %d: states=%d transitions=%d", name, p.depth, res.States, res.Transitions)
 	}
 	r.Assume("exemplar restoration from the snapshot is not covered (no exemplars in the dbx alphabet)")
 }
